@@ -1,7 +1,7 @@
 (* Props/C05.v — No input byte is lost, duplicated or reordered across parser hand-offs.
    Only statements.  Request-parser hand-offs here; stream-parser hand-offs and the k-request chain
    are added as the stream-parser proofs complete. *)
-From FV Require Import Base.Bytes Gen.Generated Codec.Varint Codec.NV Codec.Header Codec.Bodies Codec.Vars Parser.ReqModel Parser.ReqParamsSpec Parser.ReqWire Parser.ReqTargets Parser.ReqFinal Parser.StreamModel Parser.AbsStream Parser.StreamSpec Parser.StreamRefine Parser.StreamInv Parser.StreamFinal.
+From FV Require Import Base.Bytes Gen.Generated Codec.Varint Codec.NV Codec.Header Codec.Bodies Codec.Vars Parser.ReqModel Parser.ReqParamsSpec Parser.ReqWire Parser.ReqTargets Parser.ReqFinal Parser.StreamModel Parser.AbsStream Parser.StreamSpec Parser.StreamRefine Parser.StreamInv Parser.StreamFinal Parser.ChainTargets Parser.ChainStream Parser.ChainProofs Parser.Chain.
 
 (* after any schedule over any bytes: what was fed = consumed ++ what the parser still holds, and
    the not-yet-fed bytes follow: nothing lost, duplicated or reordered *)
@@ -94,3 +94,101 @@ Theorem C05_to_stream_parser :
     |}.
 Proof. exact into_stream_parser_inv. Qed.
 
+(* ---- the k-request chain ('Consequently ...') ----  the stream phase of ONE request under every legal caller
+   behaviour (parse calls with any chunking and destination, consume_stream, compress, consume_output, any
+   number of selections of later streams): per stream the bytes handed out are a prefix of that stream's
+   content in the request's own records, and the parser never reads past the request's records: at every record
+   boundary the uninterpreted bytes are a suffix of the record list followed by whatever the client sent next *)
+Theorem C05_stream_phase :
+  forall (maxc : N) (rp : parser) (r : req) (sp0 : sp) (rs : list rcd) (t : list N) 
+    (xs : list xop) (pf : sp) (ds : list (option N * bytes)) (u : list N),
+  parser_ok rp ->
+  st rp = Done r ->
+  into_stream_parser rp = inl sp0 ->
+  Forall rcd_ok rs ->
+  closes_streams (r_role r) (r_id r) rs ->
+  (next_input_stream (r_role r) None = None -> existsb is_parse xs = false) ->
+  held rp ++ xfed xs ++ u = enc_rcds rs ++ t ->
+  xlegal maxc sp0 xs ->
+  xrun maxc sp0 xs = Some (pf, ds) ->
+  sp_inv pf /\
+  sreq pf = r /\
+  len (buffer pf) = cap rp /\
+  (forall sg : N,
+   In sg (role_input_streams (r_role r)) ->
+   exists more : list N, content_rcds (r_role r) (r_id r) (Some sg) rs = delivered (Some sg) ds ++ more) /\
+  (is_record_boundary pf = true ->
+   exists done todo : list rcd, rs = done ++ todo /\ raw_bytes pf ++ u = enc_rcds todo ++ t).
+Proof. exact stream_phase. Qed.
+
+(* THE CHAIN: k requests back to back (C01's preamble family, records closing each request's streams), every
+   read schedule of every request parser, every legal stream-phase behaviour (reading nothing, part or all of
+   each stream), any look-ahead at every hand-off: all k stages complete, the i-th request is exactly the i-th
+   transmitted one, stage i hands out only prefixes of request i's streams, and what is left at the end is a
+   suffix of the last request's records plus the trailing bytes. chain_run / chain_legal / creq_ok:
+   Parser/ChainTargets.v *)
+Theorem C05_chain :
+  forall (norm : bytes -> bytes) (maxc B : N) (cs : list creq) (gs : list stage) (trailing : bytes),
+  B < SIZE_LIMIT - 8 ->
+  Forall (creq_ok (aligned_bufsize B)) cs ->
+  length gs = length cs ->
+  bytes_ok trailing ->
+  len (flat_map creq_wire cs ++ trailing) < SIZE_LIMIT ->
+  chain_legal norm maxc (new_parser B) (flat_map creq_wire cs ++ trailing) gs ->
+  exists (res : list (req * list (option N * bytes))) (pe : parser) (ue : bytes),
+    chain_run norm maxc (new_parser B) (flat_map creq_wire cs ++ trailing) gs = Some (res, pe, ue) /\
+    map fst res = map (expected norm) cs /\
+    Forall2
+      (fun (c : creq) (r : req * list (option N * bytes)) =>
+       forall sg : N,
+       In sg (role_input_streams (w_role (c_pre c))) ->
+       exists more : list N,
+         content_rcds (w_role (c_pre c)) (w_id (c_pre c)) (Some sg) (c_rest c) =
+         delivered (Some sg) (snd r) ++ more) cs res /\
+    (cs <> [] ->
+     exists done todo : list rcd,
+       c_rest
+         (last cs
+            {|
+              c_pre :=
+                {|
+                  w_idle := [];
+                  w_id := 0;
+                  w_role := 0;
+                  w_flags := 0;
+                  w_beginpad := [];
+                  w_pieces := [];
+                  w_endjunk := [];
+                  w_endpad := []
+                |};
+              c_pairs := [];
+              c_rest := []
+            |}) = done ++ todo /\ held pe ++ ue = enc_rcds todo ++ trailing) /\
+    st pe = Header /\ cap pe = aligned_bufsize B.
+Proof. exact chain. Qed.
+
+(* ... and each request alone on a fresh connection yields the same request: 'the same k environments as k
+   separate connections' *)
+Theorem C05_chain_separately :
+  forall (norm : bytes -> bytes) (maxc B : N) (c : creq) (sched : list N),
+  B < SIZE_LIMIT - 8 ->
+  creq_ok (aligned_bufsize B) c ->
+  len (creq_wire c) < SIZE_LIMIT ->
+  exists (p : parser) (u o : bytes),
+    run_schedule norm maxc (new_parser B) (creq_wire c) sched = SOk p true u o /\
+    st p = Done (expected norm c).
+Proof. exact chain_separately. Qed.
+
+(* non-vacuity of C05_chain: two pipelined requests (a Responder whose Stdin is read completely, a Filter whose Stdin is read in part
+   before Data is selected), B = 256, the whole connection in the buffer at the first hand-off: every hypothesis holds and the run
+   yields both requests *)
+Example C05_chain_example :
+  Forall (creq_ok (aligned_bufsize 256)) [ch_c1; ch_c2] /\
+  chain_legal ch_norm 10 (new_parser 256) ch_wire [ch_g1; ch_g2].
+Proof. destruct chain_nonvacuous as (_ & H1 & _ & _ & _ & H2). split; [exact H1|exact H2]. Qed.
+
+(* the caller obligation "do not parse during the stream phase of a role without input streams" is needed: DESIGN.md, observation O4 *)
+Example C05_authorizer_overread :
+  o4_left [] = Some (creq_wire o4_resp ++ [9; 9; 9]) /\
+  o4_left [XC (CParse [] None); XC (CConsumeOutput 100)] = Some [9; 9; 9].
+Proof. exact authorizer_overread_swallows_successor. Qed.
